@@ -34,7 +34,10 @@ def eval_model(cases):
 
 def run(rep, tier, seed, replay=None):
     trusted = [
-        'hand models Model/Leaf.v, Model/Root.v, Model/Common.v (generic lifts): tied to the source by K and fingerprints only',
+        'hand models Model/Leaf.v (compute_leaf_layout) and Model/Root.v (root_input / root_assemble): PROVED equal to the translation of the '
+        'whole bodies of compute_leaf_layout / compute_root_layout regenerated on every run (Gen/LeafGen.v, Gen/RootGen.v by translator/gen_leaf.py; '
+        'C19_translated_*_is_model) -- and tied by K; Model/Common.v (generic lifts to Size/Rect) and Root.childless_child_layout '
+        '(TaffyView::compute_child_layout dispatch): hand-written, tied by K and fingerprints only',
         'a fresh TaffyTree has an empty layout cache (the cache is not modelled here: property C02)',
         'calc() lengths are out of scope; the high-level API resolves them to 0',
         'theorems are over exact rationals (XQ); the F32 instance is only run, its rounding is not analysed']
@@ -48,7 +51,7 @@ def run(rep, tier, seed, replay=None):
     if rc != 0:
         rep.add_broken('build', 'harness', out[-1500:])
         return
-    mine = [k for k in changed if k.startswith('gen_math:')]
+    mine = [k for k in changed if k.startswith(('gen_math:', 'gen_leaf:'))]
     n = 2000 if tier == 'quick' else 40000
     if mine:
         n = max(n, 12000)
